@@ -30,7 +30,7 @@ NEEDS_DRIVER = False
 
 
 def scenarios(seed, tier):
-    n = 120 if tier == 'quick' else 1500
+    n = 250 if tier == 'quick' else 2500
     rnd = random.Random(seed * 7919 + 10)
     for name, c in H.witness_cases().items():
         yield 'witness:' + name, c
